@@ -58,6 +58,8 @@ func assignArgsToEnv(
 	args []object.PanObject,
 	kwargs *object.PanObj,
 ) {
+	// NOTE: argvars (`\1`, `\0`...) refer to the args actually passed (without padding)
+	passedArgs := args
 	// nil padding if arity of args is fewer than that of params
 	args = paddedArgs(args, params)
 
@@ -72,15 +74,15 @@ func assignArgsToEnv(
 	}
 
 	// set argvars (like `\1`)
-	for i, arg := range args {
+	for i, arg := range passedArgs {
 		argVar := fmt.Sprintf(`\%d`, i+1)
 		env.Set(object.GetSymHash(argVar), arg)
 	}
 	// `\0`
-	env.Set(object.GetSymHash(`\0`), object.NewPanArr(args...))
+	env.Set(object.GetSymHash(`\0`), object.NewPanArr(passedArgs...))
 	// `\`
-	if len(args) > 0 {
-		env.Set(object.GetSymHash(`\`), args[0])
+	if len(passedArgs) > 0 {
+		env.Set(object.GetSymHash(`\`), passedArgs[0])
 	}
 
 	for symHash, defaultPair := range *kwargParams.Pairs {
